@@ -1264,6 +1264,28 @@ class Engine:
         sl = node.slice
         if isinstance(sl, ast.Slice):
             return self.slice(base, sl, st, exits, node)
+        if not isinstance(sl, ast.Tuple):
+            idxv = self.eval(sl, st, exits)
+            if isinstance(idxv, Obj) and idxv.cls == "SliceValue" and isinstance(base, Seq):
+                # a slice object held in a variable / field: start / stop are ints or None, step is None (the only form modelled)
+                n = base.n
+
+                def clampv(v, default):
+                    if isinstance(v, NoneV):
+                        return default
+                    x = z3.If(v.z < 0, v.z + n, v.z)
+                    return z3.If(x < 0, 0, z3.If(x > n, n, x))
+                lo, hi = clampv(idxv.fields["start"], z3.IntVal(0)), clampv(idxv.fields["stop"], n)
+                r = fresh_seq("slice")
+                i = fresh_int("i")
+                st.assume(r.n == z3.If(hi > lo, hi - lo, 0))
+                st.assume(z3.ForAll([i], z3.Implies(z3.And(i >= 0, i < r.n), z3.Select(r.arr, i) == z3.Select(base.arr, lo + i)), patterns=[z3.Select(r.arr, i)]))
+                st.env["SLICE_LO"], st.env["SLICE_N"] = Num(lo, True), Num(r.n, True)
+                return r
+            if isinstance(base, Mat) and isinstance(idxv, Num) and idxv.is_int:
+                self.raise_exc(st, "IndexError", z3.Not(z3.And(idxv.z >= -base.r, idxv.z < base.r)), node.lineno, exits)
+                ii = z3.If(idxv.z < 0, idxv.z + base.r, idxv.z)
+                return Seq(z3.Select(base.arr, ii), base.c, False)
         if isinstance(base, Mat):
             if not (isinstance(sl, ast.Tuple) and len(sl.elts) == 2):
                 raise Unsupported("matrix read needs m[i, j]")
@@ -1364,10 +1386,14 @@ class Engine:
                 h = self.c.calls.get("iter:%s" % seq.cls)
                 if h is not None:
                     seq = h.handler(self, st, [seq], {}, node, exits)
-            if not isinstance(seq, Seq):
+            if isinstance(seq, Mat):              # rows of a matrix
+                n = seq.r
+                self.assign(gen.target, Seq(z3.Select(seq.arr, i), seq.c, False), sub, exits)
+            elif not isinstance(seq, Seq):
                 raise Unsupported("comprehension over %r" % (seq,))
-            n = seq.n
-            self.assign(gen.target, Num(z3.Select(seq.arr, i), False), sub, exits)
+            else:
+                n = seq.n
+                self.assign(gen.target, Num(z3.Select(seq.arr, i), False), sub, exits)
         sub.assume(z3.And(i >= 0, i < n))
         nvc = len(self.vcs)
         val = self.eval(node.elt, sub, exits)
